@@ -315,13 +315,14 @@ Proof.
   pose proof (kslot_nonneg sh_kp sh_kp_nonneg st wf 43 K). pose proof (kslot_nonneg sh_kp sh_kp_nonneg st wf 51 K).
   pose proof (kslot_nonneg sh_kp sh_kp_nonneg st wf 41 K). pose proof (oweight_nonneg others) as ON.
   unfold SH_ORDER in S1, S2. rewrite !wsum_cons in S1, S2. cbn [wsum fold_right] in S1, S2.
+  clear E1 E2 E3 E4 Hb Hb1 Hb2 Hb3 Hb4 Hr K.
   exists (mkSH random sid cs cm sv ks psk others).
   assert (EX : Zlen (flat_seq (sh_exts (mkSH random sid cs cm sv ks psk others))) = wf 43 + wf 51 + wf 41 + oweight others).
   { unfold sh_exts. cbn [sh_supported_version sh_key_share sh_pre_shared_key sh_other_extensions].
     rewrite !flat_seq_app, !Zlen_app, flat_others_len, L43, L51, L41. lia. }
   assert (FX : fits_seq (sh_exts (mkSH random sid cs cm sv ks psk others)) = true).
   { unfold sh_exts. cbn [sh_supported_version sh_key_share sh_pre_shared_key sh_other_extensions].
-    rewrite !fits_seq_app, F43, F51, F41, fits_others by lia. reflexivity. }
+    clear - F43 F51 F41 S1 H H0 H1 ON. rewrite !fits_seq_app, F43, F51, F41, fits_others by lia. reflexivity. }
   repeat split.
   - unfold dump_server_hello. cbn [sh_random sh_session_id sh_cipher_suite sh_compression_method sh_supported_version
       sh_key_share sh_pre_shared_key sh_other_extensions].
@@ -329,13 +330,15 @@ Proof.
     repeat rewrite <- app_assoc. reflexivity.
   - unfold server_hello_wf. cbn [sh_random sh_session_id sh_cipher_suite sh_compression_method sh_supported_version
       sh_key_share sh_pre_shared_key sh_other_extensions].
-    rewrite !andb_true_iff. repeat split; try assumption; unfold u16b, u8b; lia.
-  - unfold tree_server_hello. cbn [sh_random sh_session_id sh_cipher_suite sh_compression_method].
+    clear - Lr Hcs Hcm W43 W51 W41 W. rewrite !andb_true_iff. repeat split; try assumption; unfold u16b, u8b; lia.
+  - clear D43 D51 D41 W43 W51 W41 W L43 L51 L41 F43 F51 F41 O.
+    unfold tree_server_hello. cbn [sh_random sh_session_id sh_cipher_suite sh_compression_method].
     rewrite !fits_seq_cons, fits_block, !fits_seq_cons, !fits_int, fits_bytes, fits_seq_nil, Fs, fits_block, FX, EX.
     rewrite !flat_seq_cons, flat_seq_nil, !flat_int, flat_bytes, flat_block, EX, !Zlen_app, !be_enc_Zlen.
     cbn [andb]. change (Zlen (@nil Z)) with 0. change (256 ^ Z.of_nat 3) with 16777216. change (256 ^ Z.of_nat 2) with 65536.
     change (Z.of_nat 2) with 2. change (Z.of_nat 1) with 1. lia.
-  - unfold tree_server_hello. cbn [sh_random sh_session_id sh_cipher_suite sh_compression_method].
+  - clear D43 D51 D41 W43 W51 W41 W L43 L51 L41 F43 F51 F41 O FX Fs.
+    unfold tree_server_hello. cbn [sh_random sh_session_id sh_cipher_suite sh_compression_method].
     rewrite !flat_seq_cons, flat_seq_nil, flat_int, flat_block, !flat_seq_cons, flat_seq_nil, !flat_int, flat_bytes, flat_block.
     repeat rewrite ?Zlen_app, ?be_enc_Zlen, ?EX. change (Zlen (@nil Z)) with 0.
     change (Z.of_nat 3) with 3. change (Z.of_nat 2) with 2. change (Z.of_nat 1) with 1. lia.
